@@ -9,6 +9,9 @@ _ENV = {}
 
 # goroutine entry points without recover (every `go` statement outside tests), as read on 2026-10-01.  The list is
 # re-extracted from the tree on every run and written into the evidence; drift is reported there, never as a violation.
+# Besides the `go` statements: the Kubernetes provider's informer callbacks (addRuleSet / updateRuleSet / deleteRuleSet and
+# the filter with its obj.(*v1alpha4.RuleSet) assertions, provider.go) run on client-go's informer goroutines, which do not
+# recover either - recorded / repaired under C18 by bG2-C18 (DeletedFinalStateUnknown).
 _GO_STATEMENTS = [
     "internal/cache/memory/cache.go: go c.c.Start()",
     "internal/handler/envoyextauth/grpcv3/server_adapter.go: go func() {",
@@ -110,7 +113,7 @@ P = {
         "name": "rules", "pkg": "./internal/rules", "test": "TestVerifC19Rules",
         "overlay": _ov({"internal/rules/zz_verif_c19_test.go": "c19/rules_test.go"}),
         "eval_module": "Run.Eval_C19", "check_term": "check_rules " + _FX,
-        "n_quick": 200, "n_thorough": 4000, "findings": _KF, "env": _ENV, "shard": 280,
+        "n_quick": 200, "n_thorough": 4000, "findings": _KF, "env": _ENV, "shard": 320,
     }, {
         "name": "fs", "pkg": "./internal/rules/provider/filesystem", "test": "TestVerifC19FS",
         "overlay": _ov({"internal/rules/provider/filesystem/zz_verif_c19_test.go": "c19/fs_test.go"}),
@@ -126,7 +129,9 @@ P = {
             "log level and private state read); rules: type-confusion of every node of three valid rule sets (12 replacement kinds incl. "
             "non-string-keyed maps, structural edits), truncation of the YAML text at every offset and random multi-mutations through "
             "ParseRules, the real processor, rule factory, REAL mechanism factory (catalogue with every mechanism type) and repository; "
-            "fs: real files (truncated at every offset, empty, missing, ENOTDIR, FIFO unlinked before EOF) through the provider's "
+            "watch / fs-loop / watchloop: the key-store watcher and the provider's watch loop through real fsnotify (child processes): "
+            "sequences bad, bad, good, ... of in-place rewrites / atomic replacements with errors fed into the fsnotify Errors channel, "
+            "every step must be delivered; fs: real files (truncated at every offset, empty, missing, ENOTDIR, FIFO unlinked before EOF) through the provider's "
             "ruleSetsChanged for every fsnotify op / previous state / processor answer; request: recovery middleware + real error handler "
             "around handlers panicking with values of every kind, composite extractor over stub strategies; remote: real jwt / "
             "oauth2_introspection authenticators and remote authorizer against an httptest server answering a valid JWKS / introspection / "
@@ -159,20 +164,24 @@ P = {
                 "services are left to the C01/C13 streams"],
     "level_text": "Proof (kernel-checked, no axioms) that the modelled loaders of the tree as it is now - key store creation incl. chain "
                   "building, the hot reload of jwt signer / TLS key store / http message signatures, trust store, rule factory over "
-                  "the decoded YAML value tree + rule-set processor, file-system provider event handler, recovery middleware - never "
-                  "reach a panic (= process exit on their goroutine) and keep the previous state whenever they reject the input, for "
-                  "ALL inputs of any size (unguarded totality theorems; for the rule factory under the hypothesis that the "
-                  "collaborators taken as data do not panic themselves); for any subset of the eight repairs the panics are "
-                  "characterised exactly (iff-theorems per site). The models are tied to the Go code by ~4300 (quick) / ~60000 "
-                  "(thorough) systematic + generated cases per run through the real entry points, comparing outcome (reloaded / kept / "
-                  "exit site), log level and state.",
-    "level_note": "PARTIAL by design: proof of totality of the decision logic after byte parsing + systematic fault enumeration (truncation "
-                  "at every offset, type confusion of every node); parsers and crypto are data/oracles (see trusted). Eight findings "
-                  "(C19-F1..F8; F5-F8 found while building this check, F8 by the sweep itself) were repaired by fix: commits; C19-F9 (scopes-matcher "
-                  "decode hook, reported by the coordinator's seeding agent, missed before because no valid base rule set carried a "
-                  "`scopes` override) is open with an exact guard, fixes/C19-F9.diff is the candidate repair; the pinned "
-                  "behaviour is documented by the _pinned_refuted theorems, and reverting any of the commits is reported as a VIOLATION "
-                  "with the crashing input (F6, a fatal stack overflow, through a child process).",
+                  "the decoded YAML value tree + rule-set processor, file-system provider event handler - never reach a panic (= "
+                  "process exit on their goroutine) and keep the previous state whenever they reject the input, for ALL inputs of any "
+                  "size, and that ANY sequence of such events leaves the watcher loops alive with the last good content in effect "
+                  "(folds over event lists); for the rule factory under the hypothesis that the decoder and the collaborators taken "
+                  "as data do not panic themselves. Two clauses of the statement hold only outside open, exactly guarded findings: a "
+                  "PARTIAL key / trust store is rejected (C19-F10) and an EMPTY rule file keeps the loaded rules (C19-F11). The models "
+                  "are tied to the Go code by ~6000 (quick) / ~60000 (thorough) systematic + generated cases per run through the real "
+                  "entry points - including the three watcher loops driven through real fsnotify in child processes - comparing the "
+                  "classes the statement fixes (reloaded / rejected / exit site, state kept on rejection, error flag).",
+    "level_note": "PARTIAL by design: totality of the decision logic after byte parsing + systematic fault enumeration (truncation at every "
+                  "offset, type confusion and malformed strings at every node, option injection); parsers, crypto and the mechanisms' "
+                  "decoders are data/oracles (see trusted) - only the scopes-matcher hook is modelled. C19-F1..F9 are repaired by fix: "
+                  "commits (pinned behaviour: _pinned_refuted theorems; reverting a commit is a VIOLATION with the crashing input). "
+                  "OPEN: C19-F10 (undecodable trailing PEM data ignored: partial key / trust stores are loaded; fixes/C19-F10.diff) and "
+                  "C19-F11 (empty rule file unloads the rule set; by design, no repair proposed). NOT covered here: request bytes "
+                  "through the assembled services (C01/C13), the gRPC ext_authz recovery interceptor, the http_endpoint / cloud_blob / "
+                  "kubernetes provider loops (C18; their rule-set bytes go through the ParseRules + processor path driven here); remote "
+                  "documents and tokens have an expectation table, no theorem.",
     "assumptions": ["drivers read private fields of jwtSigner / tlsx.keyStore / HTTPMessageSignatures / repository / Provider (in-package): "
                     "renaming them breaks the driver, not the property",
                     "fixtures (corpus/C19/fixtures.pem) contain certificates valid until 2120; an expired-on-purpose one is dated 2021"],
